@@ -566,7 +566,12 @@ class SymReal:
 
     def __round__(s, nd=None):
         if nd is not None:
-            raise Unsupported("round ndigits")
+            if not isinstance(nd, builtins.int) or abs(nd) > 30:
+                raise Unsupported("round ndigits")
+            scale = z3.RealVal(10 ** nd) if nd >= 0 else z3.Q(1, 10 ** (-nd))
+            inner = SymReal(s.t * scale).__round__()          # round-half-even of x*10^nd (decimal, not binary: the real-number reading)
+            it = z3.ToReal(inner.t) if isinstance(inner, SymInt) else z3.RealVal(inner)
+            return SymReal(it / scale)
         g = ground(s.t)
         if g is not None:
             return round(g)
